@@ -101,7 +101,9 @@ func concurrent(run *ev.Run) {
 		bs := build(shape{len(sc.parents), sc.parents})
 		ref, err := labnet.NewNode(crashkv.New())
 		if err != nil {
-			ev.Fatal("newnode: %v", err)
+			// a node that does not start on an empty store is outside the statement (arrival orders)
+			run.Capped(fmt.Sprintf("concurrent scenario %s: could not be set up: the in-order reference node does not start on an empty store: %v", sc.name, err))
+			continue
 		}
 		for i := 1; i < len(bs); i++ {
 			ref.Chain.ProcessBlock(bs[i].Block)
@@ -112,8 +114,10 @@ func concurrent(run *ev.Run) {
 			names = append(names, strings.Trim(fmt.Sprint(th), "[]"))
 		}
 		desc := fmt.Sprintf("concurrent: %s: tree %v, setup %v, then %s", sc.name, sc.parents, sc.setup, strings.Join(names, " || "))
+		// wall-clock share of this scenario (all bounds): what does not finish inside it is reported as capped
+		deadline := run.DeadlineIn(time.Duration(run.Pick(60, 240)) * time.Second)
 		for b := 0; b <= bound; b++ {
-			st := vsched.Explore(vsched.Config{Name: sc.name, Bound: b, Stall: 120 * time.Second, MaxExec: run.Pick(3000, 60000)}, concBody(sc, bs, refBest, refMain))
+			st := vsched.Explore(vsched.Config{Name: sc.name, Bound: b, Stall: 120 * time.Second, MaxExec: run.Pick(3000, 60000), Deadline: deadline}, concBody(sc, bs, refBest, refMain))
 			if st.Infra != "" {
 				if st.StallReproduced {
 					run.Violation("call-never-returns-under-schedule", fmt.Sprintf("%s: the same schedule stalled three times: %s", sc.name, st.Infra), map[string]interface{}{"scenario": sc.name, "schedule": st.StallSchedule})
